@@ -1,6 +1,7 @@
 #![allow(dead_code)]
 #[macro_use]
 mod runner;
+mod fxtable;
 mod led;
 mod lgen;
 mod model;
